@@ -114,6 +114,34 @@ def zip_bytes(members):
     return buf.getvalue()
 
 
+def patch_member(blob, name, flags=None, method=None, damage=False):
+    """Rewrite header fields of one member of an archive (local header and central directory entry): general purpose flags,
+    compression method; damage: overwrite the middle of its stored data."""
+    import struct
+    b = bytearray(blob)
+    nm = name.encode()
+    for sig, off_flags, off_method, off_namelen, hdr in ((b'PK\x03\x04', 6, 8, 26, 30), (b'PK\x01\x02', 8, 10, 28, 46)):
+        at = 0
+        while True:
+            at = bytes(b).find(sig, at)
+            if at < 0:
+                break
+            nlen = struct.unpack('<H', b[at + off_namelen:at + off_namelen + 2])[0]
+            if bytes(b[at + hdr:at + hdr + nlen]) == nm:
+                if flags is not None:
+                    b[at + off_flags:at + off_flags + 2] = struct.pack('<H', flags)
+                if method is not None:
+                    b[at + off_method:at + off_method + 2] = struct.pack('<H', method)
+                if damage and sig == b'PK\x03\x04':
+                    csize = struct.unpack('<L', b[at + 18:at + 22])[0]
+                    xlen = struct.unpack('<H', b[at + 28:at + 30])[0]
+                    start = at + hdr + nlen + xlen
+                    for i in range(start + csize // 3, start + 2 * csize // 3):
+                        b[i] = 0xff
+            at += 4
+    return bytes(b)
+
+
 def nested_zip(fname, data, nesting, in_dir):
     inner_name = ('dir/%s' % fname) if in_dir else fname
     blob = zip_bytes([('README', b'not a mib'), (inner_name, data)])
@@ -397,6 +425,8 @@ class ZipShapes(object):
 
     def cases(self, block, tier):
         for v in ('dup-inner', 'dup-dirs', 'corrupt-inner-next-to-member', 'corrupt-inner-deeper', 'corrupt-outer', 'no-members',
+                  'inner-archive-encrypted', 'inner-archive-of-unknown-compression', 'inner-archive-with-damaged-deflate-stream',
+                  'inner-archive-holding-an-encrypted-archive',
                   'missing-file', 'inner-ZIP-uppercase', 'member-in-three-levels', 'member-next-to-one-without-a-date',
                   'member-next-to-inner-archive-with-a-dateless-member'):
             yield {'v': v}
@@ -419,6 +449,26 @@ class ZipShapes(object):
                 allowed = ['good member']
             elif v == 'corrupt-inner-deeper':
                 blob = zip_bytes([('ok.zip', zip_bytes([('FOO-MIB', b'good member')])), ('broken.zip', b'PK\x03\x04garbage')])
+                allowed = ['good member']
+            elif v in ('inner-archive-encrypted', 'inner-archive-of-unknown-compression'):
+                # inner archives that cannot be read for other reasons than garbage: zipfile raises RuntimeError for an
+                # encrypted member, NotImplementedError for a compression method it does not know
+                blob = zip_bytes([('FOO-MIB', b'good member'), ('vault.zip', zip_bytes([('BAR-MIB', b'locked away')]))])
+                blob = patch_member(blob, 'vault.zip', flags=1) if v == 'inner-archive-encrypted' else \
+                    patch_member(blob, 'vault.zip', method=99)
+                allowed = ['good member']
+            elif v == 'inner-archive-holding-an-encrypted-archive':
+                inner = zip_bytes([('BAR-MIB', b'fine'), ('vault.zip', zip_bytes([('BAZ-MIB', b'locked away')]))])
+                blob = zip_bytes([('outer.zip', patch_member(inner, 'vault.zip', flags=1)), ('FOO-MIB', b'good member')])
+                allowed = ['good member']
+            elif v == 'inner-archive-with-damaged-deflate-stream':
+                buf = io.BytesIO()
+                with zipfile.ZipFile(buf, 'w', zipfile.ZIP_DEFLATED) as z:
+                    z.writestr(zipfile.ZipInfo('FOO-MIB', date_time=ZIP_DT), b'good member')
+                    zi = zipfile.ZipInfo('packed.zip', date_time=ZIP_DT)
+                    zi.compress_type = zipfile.ZIP_DEFLATED
+                    z.writestr(zi, zip_bytes([('BAR-MIB', bytes(range(256)) * 40)]))
+                blob = patch_member(buf.getvalue(), 'packed.zip', damage=True)
                 allowed = ['good member']
             elif v == 'corrupt-outer':
                 blob = b'garbage, not an archive'
@@ -453,7 +503,10 @@ class ZipShapes(object):
                     f.write(blob)
             else:
                 allowed = []
-            got = ask(ZipReader(zp), 'FOO-MIB')
+            try:
+                got = ask(ZipReader(zp), 'FOO-MIB')
+            except Exception as exc:
+                got = ('constructor-raised', type(exc).__name__, str(exc)[:80])
             vs = []
             if allowed:
                 if got[0] != 'found' or got[1] not in allowed:
